@@ -295,7 +295,23 @@ class ApiRig:
 
     # -- running --------------------------------------------------------------------------------
 
+    stalled = False  # the helper does not read its stdin for now (schedule items 'stall' / 'unstall')
+
+    def _stall(self) -> None:
+        """The helper stops reading and its stdin pipe is full of what it has not read yet (here: filler
+        lines and empty lines written on ExaBGP's behalf): every os.write of flush_write_queue gets EAGAIN."""
+        self.stalled = True
+        fd = self.fp.stdin.fileno()
+        for piece in (b'#filler ' + b'x' * 1000 + b'\n', b'\n'):
+            try:
+                while True:
+                    os.write(fd, piece)
+            except BlockingIOError:
+                pass
+
     def _read_replies(self) -> None:
+        if self.stalled:
+            return
         while True:
             try:
                 data = os.read(self.fp.rep_r, 65536)
@@ -341,7 +357,12 @@ class ApiRig:
                 elif kind == 'spin':
                     for _ in range(arg):
                         await asyncio.sleep(0)
+                elif kind == 'stall':
+                    self._stall()
+                elif kind == 'unstall':
+                    self.stalled = False
                 self._read_replies()
+            self.stalled = False
             quiet = 0
             for _ in range(200000):
                 await asyncio.sleep(0)
@@ -379,7 +400,7 @@ class ApiRig:
             'before': self.before,
             'after': after,
             'replies': per_cmd,
-            'stream': self.reply_bytes.decode('ascii', 'replace').split('\n')[:-1],
+            'stream': [l for l in self.reply_bytes.decode('ascii', 'replace').split('\n')[:-1] if l and not l.startswith('#filler ')],
             'written': list(self.written),
             'dead': SERVICE not in self.reactor.processes._process,
             'parse_log': list(self.parse_log),
